@@ -199,6 +199,9 @@ def short(h):
 
 
 PANICS_ARE_OWN = ("C01", "C19", "C20")
+# crate assertions that ARE the runtime check of a property's clause: the ring buffer's `assert!(self.can_push())` inside push() is
+# the capacity bound of C09 ("at most `capacity` accepted-but-unreceived values") - the channel tried to store one value too many
+OWN_CRATE_ASSERTIONS = {"C09": ("assertion failed: self.can_push()",)}
 
 
 _ORACLE_IDS = re.compile(r"((?:C\d\d\+)*C\d\d) ")
@@ -250,6 +253,8 @@ def classify(prop, job, r):
             if d == "WITNESS reached" or d.startswith("SENTINEL"):
                 info.setdefault("special", []).append(d)
             elif own_oracle(prop, d):
+                info["failed_own"].append(d)
+            elif any(a in d for a in OWN_CRATE_ASSERTIONS.get(prop, ())):
                 info["failed_own"].append(d)
             elif prop in PANICS_ARE_OWN and not is_other_oracle(d):
                 # C01: panics, pointer checks, CheckLock discipline. C19/C20: the data structures' own debug assertions
